@@ -595,3 +595,15 @@ func TestC02Full(t *testing.T) {
 			}})
 	})
 }
+
+// C11 on nearly-full disks: whatever fails for lack of space, no request makes the server panic or hang
+// (a failed allocation half-way through a request is where stale pointers and nil results come from).
+func TestC11Full(t *testing.T) {
+	rapid.Check(t, func(t *rapid.T) {
+		runFullDiskCase(t, fullCfg{Prop: "C11", Fsck: FsckOpts{}, ReadHoles: true,
+			Relevant: func(err error) bool {
+				k := errKind(err)
+				return k == "panic" || k == "hang"
+			}})
+	})
+}
